@@ -61,7 +61,8 @@ SRC = "spqlios/coeffs/coeffs_arithmetic.c"
 SRCS = [SRC, "spqlios/arithmetic/vec_znx.c", "spqlios/coeffs/coeffs_arithmetic_avx.c", "spqlios/arithmetic/vec_znx_avx.c",
         "spqlios/q120/q120_arithmetic_ref.c", "spqlios/q120/q120_arithmetic_simple.c",
         "spqlios/arithmetic/vec_znx_dft.c", "spqlios/arithmetic/scalar_vector_product.c", "spqlios/arithmetic/znx_small.c",
-        "spqlios/arithmetic/vector_matrix_product.c", "spqlios/q120/q120_arithmetic_avx2.c"]
+        "spqlios/arithmetic/vector_matrix_product.c", "spqlios/q120/q120_arithmetic_avx2.c",
+        "spqlios/reim/reim_fftvec_addmul_ref.c"]
 # per-file ISA flags (as in spqlios/CMakeLists.txt): the intrinsics need their target features to parse
 EXTRA_CFLAGS = {"spqlios/coeffs/coeffs_arithmetic_avx.c": ["-mavx2", "-mfma"],
                 "spqlios/arithmetic/vec_znx_avx.c": ["-mavx2", "-mfma"],
@@ -103,6 +104,9 @@ TARGETS = [
     # q120 AVX2 product kernels (spqlios/q120/q120_arithmetic_avx2.c): `__m256i` locals are 4 uint64 slots, the
     # lane-wise intrinsics are applied lane by lane
     "q120_vec_mat1col_product_baa_avx2", "q120_vec_mat1col_product_bbb_avx2", "q120_vec_mat1col_product_bbc_avx2",
+    # binary64 pointwise product kernels (spqlios/reim/reim_fftvec_addmul_ref.c, compiled without -mfma: separate
+    # multiplications and additions); the precomputation object is a struct parameter whose cell 1 is `m`
+    "reim_fftvec_mul_ref", "reim_fftvec_addmul_ref",
 ]
 
 # opaque kernels of the module layer: name -> (argument kinds, field of `module->mod.fft64` the object argument must be)
@@ -208,6 +212,9 @@ OPAQUE_ELEMS = {"q120a", "q120b", "q120c", "q120x2b", "q120x2c",
 ELEM_NAMES = {"uint64_t": "u64", "unsigned long": "u64", "unsigned long long": "u64", "int64_t": "i64", "long": "i64",
               "long long": "i64", "uint32_t": "u32", "unsigned int": "u32", "double": "f64"}
 _STRUCTS = {}
+# precomputation objects of the reim pointwise products: typedef / struct tag -> record name (no leading underscore)
+REIM_PRECOMP_ELEMS = {"REIM_FFTVEC_MUL_PRECOMP": "reim_mul_precomp", "struct reim_mul_precomp": "reim_mul_precomp",
+                      "REIM_FFTVEC_ADDMUL_PRECOMP": "reim_addmul_precomp", "struct reim_addmul_precomp": "reim_addmul_precomp"}
 
 
 def norm_elem(e):
@@ -218,6 +225,8 @@ def norm_elem(e):
         return "opaque"
     if e.startswith("q120_mat1col_product_") or e.startswith("struct _q120_mat1col_product_"):
         return "struct:" + e.replace("struct _", "")
+    if e in REIM_PRECOMP_ELEMS:
+        return "struct:" + REIM_PRECOMP_ELEMS[e]
     raise Unsupported(f"element type '{e}'")
 
 
@@ -260,9 +269,11 @@ def load_struct(name):
     """cell offsets of the fields of a precomputation struct (all fields are 8-byte scalars or arrays of them)"""
     if name in _STRUCTS:
         return _STRUCTS[name]
-    rec = "_" + name
     found = None
-    for src in SRCS:
+    # the q120 records carry a leading underscore (`struct _q120_mat1col_product_baa_precomp`), the reim ones do not
+    for rec, src in [(r, s) for r in ("_" + name, name) for s in SRCS]:
+        if found:
+            break
         path = os.path.join(REPO, src)
         if not os.path.exists(path):
             continue
@@ -281,13 +292,17 @@ def load_struct(name):
             d, i = dec.raw_decode(t, i)
             if d.get("kind") == "RecordDecl" and d.get("name") == rec and d.get("completeDefinition"):
                 found = d
-        if found:
-            break
     if not found:
         raise Unsupported(f"struct '{name}': definition not found")
     off, fields = 0, {}
     for f in found.get("inner", []):
         if f.get("kind") != "FieldDecl":
+            continue
+        fq = f.get("type", {}).get("desugaredQualType", qual(f))
+        if re.search(r"\(\*\)\s*\(", fq):
+            # function-pointer field (`FFTVEC_MUL_FUNC function`): one 8-byte cell that is never read; it gets no entry
+            # in `fields`, so any access to it is rejected (`elem_lv` / `pv`: unknown field -> Unsupported)
+            off += 1
             continue
         kind, elem, dims = parse_ctype(qual(f))
         if kind == "ptr" or elem not in ("u64", "i64", "f64"):
